@@ -80,7 +80,7 @@ theorem step_fuel (env : Env R) (s : State R) (t : Thread R) (hs : t.pc ≠ .sta
     · split
       · simp [Thread.fuel]
       · rw [advance_fuel]; simp [Thread.fuel]
-  | put idx r => simp [step, Thread.fuel]
+  | put idx r => simp only [step]; split <;> simp [Thread.fuel]
   | comp r =>
     simp only [step, advance_fuel]
     split <;> simp [Thread.fuel]
